@@ -31,7 +31,7 @@ pub fn make_ctx(paths: &Paths, sub: &str) -> Result<Ctx, String> {
     let scratch = paths.build.join("scratch").join(sub);
     let _ = std::fs::remove_dir_all(&scratch);
     std::fs::create_dir_all(&scratch).map_err(|e| e.to_string())?;
-    Ok(Ctx { pdlc: paths.pdlc(), shim: paths.shim(), launcher: paths.launcher(), scratch, corpus, memo: Mutex::new(HashMap::new()), memo_bytes: Mutex::new(0) })
+    Ok(Ctx { corpus_dir: paths.verif.join("corpus"), pdlc: paths.pdlc(), shim: paths.shim(), launcher: paths.launcher(), scratch, corpus, memo: Mutex::new(HashMap::new()), memo_bytes: Mutex::new(0) })
 }
 
 /// Run tier P runs [0, n) on `nworkers` threads; results indexed by run.
@@ -45,6 +45,7 @@ pub fn run_tier_p(ctx: &Arc<Ctx>, seed: u64, n: u64, nworkers: usize, deadline: 
         let results = results.clone();
         handles.push(std::thread::spawn(move || {
             let wd = WorkerDir::new(&ctx.scratch, k);
+            wd.install_aux(&ctx.corpus_dir);
             loop {
                 let i = next.fetch_add(1, Ordering::SeqCst);
                 if i >= n {
@@ -245,6 +246,7 @@ fn job_from_json(c: &Corpus, v: &Value) -> Option<Job> {
         backend: crate::corpus::Backend::from_name(v["backend"].as_str()?)?,
         extra_excl: v["extra_exclude"].as_array()?.iter().filter_map(|x| x.as_str().map(String::from)).collect(),
         text_override: Some(v["source_text"].as_str()?.to_string()),
+        extra_args: v["extra_args"].as_array().map(|a| a.iter().filter_map(|x| x.as_str().map(String::from)).collect()).unwrap_or_default(),
     })
 }
 
@@ -267,6 +269,7 @@ pub fn replay(paths: &Paths, file: &Path) -> i32 {
                 }
             };
             let wd = WorkerDir::new(&ctx.scratch, 0);
+            wd.install_aux(&ctx.corpus_dir);
             let (job, p) = match (job_from_json(&ctx.corpus, &v["job"]), Perturb::from_json(&v["perturb"])) {
                 (Some(j), Some(p)) => (j, p),
                 _ => {
@@ -317,7 +320,11 @@ pub fn check(paths: &Paths, tier: &str) -> i32 {
     let l_runs = env_u64("VERIF_L_RUNS", if thorough { 150_000 } else { 2_400 });
     let selfcheck_runs = env_u64("VERIF_SELFCHECK_RUNS", if thorough { 400 } else { 60 });
     let budget_s = env_u64("VERIF_BUDGET_S", if thorough { 3000 } else { 240 });
-    let deadline = Instant::now() + std::time::Duration::from_secs(budget_s);
+    // the wall-clock budget is split between the tiers: P 45 %, L 30 %, D 25 %
+    let start = Instant::now();
+    let deadline_p = start + std::time::Duration::from_secs(budget_s * 45 / 100);
+    let deadline_l = start + std::time::Duration::from_secs(budget_s * 75 / 100);
+    let deadline = start + std::time::Duration::from_secs(budget_s);
 
     let ctx = match make_ctx(paths, "p") {
         Ok(c) => Arc::new(c),
@@ -332,7 +339,7 @@ pub fn check(paths: &Paths, tier: &str) -> i32 {
 
     // ---------------- tier P ----------------
     let tp0 = Instant::now();
-    let results = run_tier_p(&ctx, seed, p_runs, nworkers, Some(deadline));
+    let results = run_tier_p(&ctx, seed, p_runs, nworkers, Some(deadline_p));
     let p_wall = tp0.elapsed().as_secs_f64();
 
     // determinism self-check: first runs again on one worker, digests must agree
@@ -364,6 +371,7 @@ pub fn check(paths: &Paths, tier: &str) -> i32 {
     let mut samples: Vec<Value> = Vec::new();
     let mut entries_seen: BTreeSet<usize> = BTreeSet::new();
     let wd0 = WorkerDir::new(&ctx.scratch, 999);
+    wd0.install_aux(&ctx.corpus_dir);
     for (i, r) in results.iter().enumerate() {
         let r = match r {
             Some(r) => r,
@@ -413,7 +421,7 @@ pub fn check(paths: &Paths, tier: &str) -> i32 {
     let _ = std::fs::remove_dir_all(&wd0.root);
 
     // ---------------- tier L ----------------
-    let l = tierl::run_tier(paths, seed, l_runs, nworkers, selfcheck_runs, deadline, &known);
+    let l = tierl::run_tier(paths, seed, l_runs, nworkers, selfcheck_runs, deadline_l, &known);
     let l = match l {
         Ok(l) => l,
         Err(e) => {
